@@ -327,6 +327,7 @@ class State:
         self.effects: List[tuple] = []
         self.flags: List[tuple] = []        # (kind, site, detail) soft findings (float arithmetic ...)
         self.cmp_facts: List[tuple] = []
+        self.cmp_raw: List[tuple] = []        # (difference, operator, outcome) as decided, un-normalised
         self.counter = 0
         self.kind_refine: Dict[tuple, str] = {}
         self.type_dims: Dict[str, dict] = {}
